@@ -203,7 +203,7 @@ def tables_T3(G, R):
 
 def explore_class(r, which, k, G, start, R, plan, fastok=None):
     """plan: list of (tables, Lmax, modes) with tables a list of table rows or None entries."""
-    acc = U.A(G)
+    acc = U.A_reuse(G)
     if fastok is None:
         fastok = no_deg3(G, R)
     n = 0
